@@ -49,13 +49,18 @@ def one_trace(rng, tid, prop):
                     ax = [x - nd for x in ax]
             p = {"axis": ax, "keepdims": rng.random() < 0.4}
             sps = ["numpoly", "numpy", "method"] + (["reduce"] if fam in ("sum", "prod") else [])
-            do(rec, fam, [a], p, rng.choice(sps))
+            sp = rng.choice(sps)
+            if sp == "reduce" and rng.random() < 0.3:
+                p["axis"] = "omitted"           # numpy.add.reduce(a): along the first axis
+            do(rec, fam, [a], p, sp)
         elif fam == "cumsum":
             shape = rng.choice(SHAPES)
             a = rec.new(small_poly(rng, shape, names, kind))
             nd = len(shape)
             ax = "none" if rng.random() < 0.3 else rng.randrange(-nd, nd)
             sp = rng.choice(["numpoly", "numpy", "method"] + ([] if ax == "none" else ["accumulate"]))
+            if sp == "accumulate" and rng.random() < 0.3:
+                ax = "omitted"
             do(rec, "cumsum", [a], {"axis": ax}, sp)
         elif fam == "diff":
             shape = rng.choice(SHAPES)
@@ -114,8 +119,8 @@ def one_trace(rng, tid, prop):
             b = rec.new(other)
             do(rec, "matmul", [a, b], {}, rng.choice(["numpoly", "numpy", "operator"]))
         elif fam == "det":
-            n = rng.choice([1, 2, 2, 3])
-            shape = (n, n) if rng.random() < 0.7 else (2, n, n)
+            n = rng.choice([1, 2, 2, 3, 4])
+            shape = (n, n) if rng.random() < 0.7 or n == 4 else (2, n, n)
             if n == 3 and len(shape) == 3:
                 shape = (n, n)
             spec = gen.rand_poly_spec(rng, shape=shape, names=names, kind=kind, max_terms=2, max_exp=1, min_terms=1)
